@@ -106,6 +106,7 @@ type Interp struct {
 	guardsOff bool
 	quotedOf map[string]Term
 	rtypes   map[string]*Value
+	ordTerms []Term
 	lockCount map[*Value]int
 }
 
@@ -896,13 +897,13 @@ func (in *Interp) binop(op token.Token, xt types.Type, a, b Value) Value {
 		case token.ADD:
 			return strConcat(x, y)
 		case token.LSS:
-			return strLess(x, y)
+			return in.strLess(x, y)
 		case token.GTR:
-			return strLess(y, x)
+			return in.strLess(y, x)
 		case token.LEQ:
-			return tNot(strLess(y, x))
+			return tNot(in.strLess(y, x))
 		case token.GEQ:
-			return tNot(strLess(x, y))
+			return tNot(in.strLess(x, y))
 		}
 		panic(abort("string binop " + op.String()))
 	}
@@ -1609,4 +1610,74 @@ func (in *Interp) iteValue(c Term, a, b Value) Value {
 		return out
 	}
 	panic(abort(fmt.Sprintf("symbolic index into elements of type %T", a)))
+}
+
+// strLess: Go's < on strings. Concrete operands use the real order. For symbolic operands the solver's str.< is far
+// too slow in z3, and nothing in this repository depends on the lexicographic order beyond its being a strict total
+// order (sorting, sorted output), so it is modelled as an uninterpreted strict total order |strlt|, axiomatised over
+// the terms compared on this path and agreeing with the real order on concrete strings.
+func (in *Interp) strLess(a, b Term) Term {
+	if in.spec == nil {
+		if ab, ok := strConcreteBytes(a); ok {
+			if bb, ok := strConcreteBytes(b); ok {
+				return mkBool(string(ab) < string(bb))
+			}
+		}
+	}
+	if len(in.ordTerms) == 0 {
+		in.sess.Cmd("(declare-fun strlt (String String) Bool)")
+	}
+	// every compared string is registered, concrete ones too: a sort relies on transitivity through them
+	in.ordAdd(a)
+	in.ordAdd(b)
+	if ab, ok := strConcreteBytes(a); ok {
+		if bb, ok := strConcreteBytes(b); ok {
+			return mkBool(string(ab) < string(bb))
+		}
+	}
+	return symBool("(strlt " + a.smt() + " " + b.smt() + ")")
+}
+
+func (in *Interp) ordAdd(t Term) {
+	ts := t.smt()
+	for _, u := range in.ordTerms {
+		if u.smt() == ts {
+			return
+		}
+	}
+	if len(in.ordTerms) >= 14 {
+		panic(abort("string ordering model: more than 14 distinct strings compared on one path"))
+	}
+	lt := func(x, y string) string { return "(strlt " + x + " " + y + ")" }
+	in.sess.Cmd("(assert (not " + lt(ts, ts) + "))")
+	for _, u := range in.ordTerms {
+		us := u.smt()
+		// trichotomy
+		in.sess.Cmd(fmt.Sprintf("(assert (and (or (= %s %s) %s %s) (not (and %s %s)) (=> (= %s %s) (and (not %s) (not %s)))))",
+			ts, us, lt(ts, us), lt(us, ts), lt(ts, us), lt(us, ts), ts, us, lt(ts, us), lt(us, ts)))
+		if tb, ok := strConcreteBytes(t); ok {
+			if ub, ok := strConcreteBytes(u); ok {
+				if string(tb) < string(ub) {
+					in.sess.Cmd("(assert " + lt(ts, us) + ")")
+				} else if string(ub) < string(tb) {
+					in.sess.Cmd("(assert " + lt(us, ts) + ")")
+				}
+			}
+		}
+	}
+	// transitivity over all triples that involve the new term
+	all := append(append([]Term{}, in.ordTerms...), t)
+	n := len(all)
+	for i := 0; i < n; i++ {
+		for j := 0; j < n; j++ {
+			for k := 0; k < n; k++ {
+				if i == j || j == k || i == k || (i != n-1 && j != n-1 && k != n-1) {
+					continue
+				}
+				x, y, z := all[i].smt(), all[j].smt(), all[k].smt()
+				in.sess.Cmd("(assert (=> (and " + lt(x, y) + " " + lt(y, z) + ") " + lt(x, z) + "))")
+			}
+		}
+	}
+	in.ordTerms = all
 }
